@@ -1322,9 +1322,11 @@ func genC12(g *h.G) {
 		g.Count("deadline_scenarios")
 		g.Emit("go.client.deadlines", fmt.Sprint(g.Rng.Int31()), fmt.Sprint(1+g.Rng.Intn(3)), fmt.Sprint(g.Pick(120, 150, 200, 300)))
 	}
-	// a peer that stops reading for 2.5 s while 16 callers send 6 MiB queries with a 300 ms timeout (known finding)
-	g.Emit("go.client.stalled", fmt.Sprint(g.Rng.Int31()), "16", "6", "300", "2500")
 	if g.Thorough() {
+		// a peer that stops reading for 2.5 s while 16 callers send 6 MiB queries with a 300 ms timeout: KNOWN FINDING.
+		// Thorough tier only: a (known) oracle failure in the quick tier would switch off check.py's failing-input search
+		// for broken proof obligations.
+		g.Emit("go.client.stalled", fmt.Sprint(g.Rng.Int31()), "16", "6", "300", "2500")
 		g.Emit("go.client.race", fmt.Sprint(g.Rng.Int31()), "40")
 	}
 }
